@@ -64,7 +64,7 @@ def build_three(ctx, tagname, cdef, csource):
     out["api"] = (m.ffi, m.lib)
     for name, kw in (("vcpy", {}), ("vgen", {"force_generic_engine": True})):
         ffi = cffi.FFI()
-        ffi.cdef(cdef)
+        G.apply_cdef(ffi, cdef)
         tmp = os.path.join(ctx.scratch, "verify_%s_%s" % (tagname, name))
         try:
             lib = G.quiet(lambda: ffi.verify(csource, tmpdir=tmp, **kw), stderr=True)
